@@ -831,6 +831,10 @@ pub fn comp_parts(id: &str) -> Vec<CompPart> {
         "C14" => vec![CompPart { engine: "bloom", quick: 60_000, thorough: 1_000_000 }],
         "C18" => vec![CompPart { engine: "keys", quick: 60_000, thorough: 1_000_000 }],
         "C17" => vec![CompPart { engine: "hist", quick: 60_000, thorough: 1_000_000 }],
+        "C04" => vec![CompPart { engine: "typed-c04", quick: 1_600, thorough: 30_000 }],
+        "C09" => vec![CompPart { engine: "typed-c09", quick: 1_600, thorough: 30_000 }],
+        "C03" => vec![CompPart { engine: "typed-c03", quick: 1_600, thorough: 30_000 }],
+        "C16" | "C20" => vec![CompPart { engine: "typed-all", quick: 1_600, thorough: 30_000 }],
         _ => vec![],
     }
 }
@@ -844,6 +848,10 @@ pub fn run_comp_part(prop: &str, part: &CompPart, tier: &str, seed: u64, stats: 
         "bloom" => run_comp(prop, "bloom", comp::bloom_strategy, comp::run_bloom, n, seed, stats),
         "keys" => run_comp(prop, "keys", comp::key_strategy, comp::run_keys, n, seed, stats),
         "hist" => run_comp(prop, "hist", comp::hist_strategy, comp::run_hist, n, seed, stats),
+        "typed-c04" => run_comp(prop, "typed", comp::typed_strategy, comp::run_typed_c04, n, seed, stats),
+        "typed-c09" => run_comp(prop, "typed", comp::typed_strategy, comp::run_typed_c09, n, seed, stats),
+        "typed-c03" => run_comp(prop, "typed", comp::typed_strategy, comp::run_typed_c03, n, seed, stats),
+        "typed-all" => run_comp(prop, "typed", comp::typed_strategy, comp::run_typed_all, n, seed, stats),
         _ => unreachable!(),
     }
 }
@@ -860,6 +868,7 @@ pub fn replay_comp(engine: &str, case: serde_json::Value) -> Option<Result<(), S
         "bloom" => go(case, comp::run_bloom),
         "keys" => go(case, comp::run_keys),
         "hist" => go(case, comp::run_hist),
+        "typed" => go(case, comp::run_typed_all),
         _ => return None,
     })
 }
